@@ -85,6 +85,15 @@ def pair_st(draw, tier):
         top, bottom = bottom, top
     if draw(st.sampled_from(range(6))) == 0:
         top, bottom = draw(G.flag_focus(top, bottom, established=True))
+    if draw(st.sampled_from(range(8))) == 0:
+        # one network on top, a group of several members below it (an outsider at any position decides)
+        from checks.c13 import group_under_net
+
+        net, grp = draw(group_under_net())
+        side = draw(st.sampled_from(["src", "dst"]))
+        top[side] = G.native_addr(G.addr_pair(net), platform)
+        bottom[side] = grp
+        bottom["action"] = top["action"]
     # usual Cisco order 'log <other options>': the log keyword in front of the flag tokens
     for rec in (top, bottom):
         if rec.get("flags") and draw(st.sampled_from([True, False, False])):
